@@ -20,10 +20,15 @@ from xmlsem import specgen as G                                     # noqa: E402
 E2_ASSUMPTIONS = [
     "per program: the proof covers all objects / all byte strings; the set of programs is enumerated "
     "(realistic corpus + bounded-exhaustive instruction sequences; bound stated in coverage.rule)",
-    "abstract writer / reader: the contracts of EoWriter (C09) and EoReader (C05), proved there against the real "
-    "bodies in array form, are restated over z3 sequences / uninterpreted state transformers (SKIP, NEXT, SETCH, "
-    "REM, TOT, POS, CH); the restatement is hand-written and is exercised natively against the real classes by the "
-    "E3 runs; it is not mechanically linked to the array-form contracts",
+    "abstract writer / reader: E2 works over z3 sequences (writer: data' = data ++ piece, the piece an uninterpreted "
+    "function ENC / SB / ES / PAD of arguments and mode) and uninterpreted reader-state transformers (SKIP, NEXT, SETCH "
+    "observed through CH / POS / REM / TOT / CSR). Their link to the array-form contracts of EoWriter (C09) and EoReader "
+    "(C05), proved against the real bodies, is by lemmas discharged in this check's closure run: lemmas.reader_algebra "
+    "(every reading method satisfies contracts.spec.RA_*, the very texts Vocab evaluates symbolically) and "
+    "lemmas.writer_algebra (frame, length, piece-is-a-function-of-arguments-and-mode, refusal iff contracts.spec.WA_*). "
+    "Left as a meta-step: that pointwise array statements (prefix kept, k-th appended byte) and the sequence statement "
+    "`data ++ piece` say the same; that VINT / VSTR values of the abstract reader are the C05 decode of the bytes at the "
+    "position (used as uninterpreted functions of the state)",
     "object domain: integer fields and array elements are >= 0; array elements are non-None instances of the "
     "declared element type; a referenced length is not smaller than a positive length offset; every length "
     "field equals len() of the field referencing it (established by the emitted __init__, verified)",
@@ -87,8 +92,33 @@ class E2Check:
                     r = {"kind": "native-harness-error", "exception": repr(e), "trace": traceback.format_exc()[-600:]}
                     continue
                 if not r.get("ok"):
+                    if r.get("kind") == "does-not-terminate":
+                        from xmlsem import wellformed
+                        r["read_to_end_arrays_without_progress"] = wellformed.known_shape_sites(P.spec, n)
                     return r
             return None
+        finally:
+            shutil.rmtree(tmp, ignore_errors=True)
+
+    def static_sites(self, ident, body, cls_name, tree_dir=None, payload=None):
+        """call sites of the shape known finding C03/does-not-terminate names, in the class an obligation
+        belongs to (static: from the XML alone)"""
+        from xmlsem import wellformed, ir
+        tmp = tempfile.mkdtemp(prefix="verif-sites-")
+        try:
+            if payload is not None:
+                spec_dir = os.path.join(tmp, "spec")
+                G.write_tree(spec_dir, [(n, b) for n, _, b in payload], packet_bodies=[("Act", payload[0][2])])
+            elif tree_dir is None:
+                spec_dir = os.path.join(tmp, "spec")
+                write_single_spec(ident, body, spec_dir)
+                cls_name = "T" + cls_name[len(cls_name.split(".")[0]):] if not str(ident).startswith("packet:") else cls_name
+            else:
+                spec_dir = tree_dir
+            try:
+                return wellformed.known_shape_sites(ir.load_tree(spec_dir), cls_name)
+            except Exception:
+                return []
         finally:
             shutil.rmtree(tmp, ignore_errors=True)
 
@@ -105,7 +135,8 @@ class E2Check:
         summary = {"title": cfg["title"], "obligations": len(getattr(pc, "obls", [])),
                    "discharged": getattr(pc, "discharged", 0),
                    "functions_under_contract": [f["function"] for f in getattr(pc, "functions", [])],
-                   "functions_outside_fragment": getattr(pc, "outside", []), "exit": rc}
+                   "functions_outside_fragment": getattr(pc, "outside", []), "exit": rc,
+                   "extra": getattr(pc, "extra_cov", None)}
         return rc, summary
 
     def run(self):
@@ -200,6 +231,13 @@ class E2Check:
                    "why": info.get("why"), "counter_model": model, "native": nat, "batch": batch}
             if status == "sat" or nat is not None:
                 violations.append(rec)
+            elif kind == "variant" and self.prop == "C03" and self.static_sites(ident, body, cls_name, tree, payload):
+                # an undecided termination obligation of a loop the known finding names: the call site is the
+                # finding's; whether this particular spec can reach it with data left was not decided
+                rec["native"] = {"kind": "does-not-terminate", "unconfirmed_here": True,
+                                 "read_to_end_arrays_without_progress": self.static_sites(ident, body, cls_name, tree, payload)}
+                rec["unconfirmed"] = True
+                violations.append(rec)
             else:
                 undecided.append(rec)
         # functions outside the VC generator's fragment: bounded stand-in (never counted as proved)
@@ -236,16 +274,30 @@ class E2Check:
             return 3
         known = load_known(self.prop)
         known_lines = []
+        known_instances = []
         real = []
         for v in violations:
             hit = None
             for e in known:
-                if e.get("status") == "finding" and e.get("spec") == v["spec"] and e.get("class") in (None, v["class"]):
+                if e.get("status") != "finding":
+                    continue
+                m = e.get("match")
+                if m is None:
+                    if e.get("spec") == v["spec"] and e.get("class") in (None, v["class"]):
+                        hit = e
+                elif v["native"] and v["native"].get("kind") == m.get("native_kind") and \
+                        v["native"].get(m.get("call_site_key")) and \
+                        (m.get("obligation_kind") is None or f":{m['obligation_kind']}:" in v["obligation"]):
+                    # the finding names a call-site shape: only a natively confirmed failure of that kind at a
+                    # class that has such a call site is the known one
                     hit = e
             if hit:
                 line = f"KNOWN-FINDING: property={self.prop} {hit['what']}"
                 if line not in known_lines:
                     known_lines.append(line)
+                known_instances.append({"spec": v["spec"], "class": v["class"], "obligation": v["obligation"],
+                                        "solver": v["status"], "confirmed_on_the_real_code": not v.get("unconfirmed"),
+                                        "input": (v["native"] or {}).get("bytes")})
             else:
                 real.append(v)
         violations = sorted(real, key=lambda v: v["native"] is None)     # replayable ones first
@@ -277,6 +329,7 @@ class E2Check:
             "samples": samples or [{"note": "no sample picked"}],
             "undecided": [u["obligation"] for u in undecided][:40],
             "known_findings_reported": known_lines,
+            "known_finding_instances": known_instances[:60],
             "what_verified": list(what),
             "closure": closure,
         }
